@@ -609,8 +609,161 @@ fn svcb_builder_case(c: &mut Ctx, fam: &str, idx: u64, rng: &mut Rng) {
     c.eval(&("svcb-builder", pairs.len().min(8), order_kind, keep.min(4)));
 }
 
+
+// ------------------------------------------------------------ serde routes --
+
+/// The building blocks of record data that have hand-written `Deserialize` impls receive raw
+/// octets over a compact serde format and must hold them to the same limits as their other
+/// constructors: a value that comes out has to compose to exactly the octets its length field
+/// announces. Reference verdicts are plain restatements of the RFC limits.
+fn serde_fields(c: &mut Ctx, fam: &str, idx: u64, rng: &mut Rng) {
+    use crate::sd::{self, Wrote};
+    use domain::base::charstr::CharStr;
+    use domain::rdata::caa::CaaTag;
+    use domain::rdata::dnssec::RtypeBitmap;
+    use domain::rdata::nsec3::{Nsec3Salt, OwnerHash};
+    use domain::rdata::Txt;
+    let kind = *rng.pick(&["CharStr", "Nsec3Salt", "OwnerHash", "Txt", "RtypeBitmap", "CaaTag"]);
+    // candidate octets: around the limits, and for the structured ones valid and broken layouts
+    let len_pick = |rng: &mut Rng| -> usize { match rng.below(6) { 0 => 0, 1 => rng.range(253, 259) as usize, 2 => rng.range(1, 8) as usize, 3 => 255, 4 => 256, _ => rng.below(300) as usize } };
+    let b: Vec<u8> = match kind {
+        "Txt" => {
+            let mut v = Vec::new();
+            for _ in 0..rng.below(5) {
+                let l = if rng.chance(1, 4) { 255 } else { rng.below(40) as usize };
+                v.push(l as u8);
+                v.extend(rng.bytes(l));
+            }
+            match rng.below(5) {
+                0 => { v.push(rng.range(1, 200) as u8); } // a length octet promising more than there is
+                1 if !v.is_empty() => { v.pop(); }
+                _ => {}
+            }
+            v
+        }
+        "RtypeBitmap" => {
+            let mut v = Vec::new();
+            let mut win = 0u16;
+            for _ in 0..rng.below(4) {
+                win += rng.below(3) as u16;
+                if win > 255 { break; }
+                let l = match rng.below(8) { 0 => 0usize, 1 => 33, 2 => 32, _ => rng.range(1, 8) as usize };
+                v.push(win as u8);
+                v.push(l as u8);
+                let mut bits = rng.bytes(l);
+                if let Some(last) = bits.last_mut() {
+                    if rng.chance(3, 4) && *last == 0 { *last = 1; }
+                    if rng.chance(1, 8) { *last = 0; }
+                }
+                v.extend(bits);
+                if rng.chance(5, 6) { win += 1; }
+            }
+            if rng.chance(1, 8) && !v.is_empty() { v.pop(); }
+            v
+        }
+        "CaaTag" => {
+            let l = match rng.below(5) { 0 => 0, 1 => rng.range(250, 258) as usize, _ => rng.range(1, 16) as usize };
+            (0..l).map(|_| if rng.chance(1, 12) { *rng.pick(&[b'-', b' ', 0u8, 0xE9, b'_', b'.']) } else { *rng.pick(b"abcxyzABCXYZ0189") }).collect()
+        }
+        _ => { let l = len_pick(rng); rng.bytes(l) }
+    };
+    // reference verdict: Some(true) must accept, Some(false) must refuse, None either
+    let walk_txt = |b: &[u8]| -> bool { let mut p = 0; while p < b.len() { let l = b[p] as usize; if p + 1 + l > b.len() { return false; } p += 1 + l; } true };
+    let want: Option<bool> = match kind {
+        "CharStr" | "Nsec3Salt" | "OwnerHash" => Some(b.len() <= 255),
+        "Txt" => if !walk_txt(&b) || b.len() > 65535 { Some(false) } else if b.is_empty() { None } else { Some(true) },
+        // (a window whose last octet is zero, or windows out of order, break rules for senders, RFC 4034 4.1.2; a reader may take them)
+        "RtypeBitmap" => if w::valid_bitmap(&b) { Some(true) } else {
+            let mut strip = b.clone();
+            let mut p = 0;
+            let mut structurally_ok = true;
+            let mut last: i32 = -1;
+            while p < strip.len() {
+                if p + 2 > strip.len() { structurally_ok = false; break; }
+                let (wn, l) = (strip[p] as i32, strip[p + 1] as usize);
+                let _ = wn; // (the established reader does not insist on ascending windows either: tolerated on input)
+                if l == 0 || l > 32 || p + 2 + l > strip.len() { structurally_ok = false; break; }
+                last = wn;
+                p += 2 + l;
+            }
+            strip.clear();
+            if structurally_ok { None } else { Some(false) }
+        },
+        _ => { let alnum = b.iter().all(|x| x.is_ascii_alphanumeric()); if !alnum || b.len() > 255 { Some(false) } else if b.is_empty() { None } else { Some(true) } }
+    };
+    let ex = || json!({"kind": kind, "octets": hex(&b)});
+    // (accepted over the owned route, over the borrowed route, octets the value composes to, what it serializes to, text round trip ok)
+    type Obs = (bool, bool, Option<Vec<u8>>, Option<Wrote>, Option<bool>);
+    macro_rules! drive {
+        ($ty:ty, $compose:expr) => {{
+            let o = sd::de_owned::<$ty>(&b).ok();
+            let bo = sd::de_borrowed::<$ty>(&b).is_ok();
+            let composed = o.as_ref().map($compose);
+            let wrote = o.as_ref().and_then(|v| sd::ser_compact(v).ok());
+            let text_ok = o.as_ref().map(|v| match sd::ser_text(v) { Ok(t) => sd::de_text::<$ty>(&t).ok().map(|v2| &v2 == v).unwrap_or(false), Err(_) => false });
+            (o.is_some(), bo, composed, wrote, text_ok)
+        }};
+    }
+    let r: Option<Obs> = c.guard(fam, idx, ex, || match kind {
+        "CharStr" => drive!(CharStr<Vec<u8>>, |v: &CharStr<Vec<u8>>| { let mut t = Vec::new(); v.compose(&mut t).unwrap(); t }),
+        "Nsec3Salt" => drive!(Nsec3Salt<Vec<u8>>, |v: &Nsec3Salt<Vec<u8>>| { let mut t = vec![v.as_slice().len() as u8]; t.extend_from_slice(v.as_slice()); t }),
+        "OwnerHash" => drive!(OwnerHash<Vec<u8>>, |v: &OwnerHash<Vec<u8>>| { let mut t = vec![v.as_slice().len() as u8]; t.extend_from_slice(v.as_slice()); t }),
+        "Txt" => {
+            let o = sd::de_owned::<Txt<Vec<u8>>>(&b).ok();
+            let bo = sd::de_borrowed::<Txt<Vec<u8>>>(&b).is_ok();
+            let composed = o.as_ref().map(|v| { let mut t = Vec::new(); v.compose_rdata(&mut t).unwrap(); t });
+            let wrote = o.as_ref().and_then(|v| sd::ser_compact(v).ok());
+            (o.is_some(), bo, composed, wrote, None)
+        }
+        "RtypeBitmap" => {
+            let o = sd::de_owned::<RtypeBitmap<Vec<u8>>>(&b).ok();
+            let bo = sd::de_borrowed::<RtypeBitmap<Vec<u8>>>(&b).is_ok();
+            let composed = o.as_ref().map(|v| v.as_slice().to_vec());
+            let wrote = o.as_ref().and_then(|v| sd::ser_compact(v).ok());
+            (o.is_some(), bo, composed, wrote, None)
+        }
+        _ => drive!(CaaTag<Vec<u8>>, |v: &CaaTag<Vec<u8>>| { let mut t = Vec::new(); v.compose(&mut t).unwrap(); t }),
+    });
+    let Some((acc_o, acc_b, composed, wrote, text_ok)) = r else { return };
+    for (route, acc) in [("owned", acc_o), ("borrowed", acc_b)] {
+        match want {
+            Some(true) if !acc => c.violation(&format!("serde-reject-valid:{}:{}", kind, route), &format!("the compact serde route ({}) refuses valid {} octets ({} octets)", route, kind, b.len()), c.replay_of(fam, idx, ex())),
+            Some(false) if acc => c.violation(&format!("serde-accept-invalid:{}:{}", kind, route), &format!("the compact serde route ({}) accepts {} octets as {} that no other constructor would: {}", route, b.len(), kind, hex(&b[..b.len().min(40)])), c.replay_of(fam, idx, ex())),
+            _ => {}
+        }
+    }
+    if let Some(got) = &composed {
+        let expect: Vec<u8> = match kind {
+            "Txt" | "RtypeBitmap" => b.clone(),
+            _ => { let mut t = vec![b.len() as u8]; t.extend_from_slice(&b); t }
+        };
+        if want != Some(false) && got != &expect {
+            c.violation(&format!("serde-value-composes-differently:{}", kind), &format!("a {} made from {} octets over serde composes to {} octets", kind, b.len(), got.len()), c.replay_of(fam, idx, ex()));
+        }
+        if want != Some(false) && wrote != Some(Wrote::Bytes(b.clone())) {
+            c.violation(&format!("serde-roundtrip:compact:{}", kind), &format!("a {} made from its octets serializes to something else: {:?}", kind, wrote.as_ref().map(|w_| format!("{:?}", w_).chars().take(80).collect::<String>())), c.replay_of(fam, idx, ex()));
+        }
+        if text_ok == Some(false) && want == Some(true) {
+            c.violation(&format!("serde-roundtrip:text:{}", kind), &format!("a {} written over the human readable route does not read back equal", kind), c.replay_of(fam, idx, ex()));
+        }
+        c.count("serde_values", 1);
+    } else {
+        c.count("serde_refusals", 1);
+    }
+    c.eval(&("serde", kind, want, acc_o, acc_b, b.len().min(300) / 32));
+}
+
 pub fn run(c: &mut Ctx) {
-    c.families(2);
+    c.families(3);
+    let fam = "serde";
+    let total = c.total(120_000, 10_000_000);
+    for idx in c.cases(fam, total) {
+        if c.out_of_time() {
+            break;
+        }
+        let mut rng = c.case_rng(fam, idx);
+        serde_fields(c, fam, idx, &mut rng);
+    }
     let fam = "svcb-builder";
     let total = c.total(100_000, 10_000_000);
     for idx in c.cases(fam, total) {
@@ -665,5 +818,7 @@ pub fn run(c: &mut Ctx) {
         c.floor("mutants_accepted", 100);
         c.floor("mutants_rejected", 100);
         c.floor("opt_records", 10);
+        c.floor("serde_values", 1000);
+        c.floor("serde_refusals", 1000);
     }
 }
